@@ -300,8 +300,19 @@ def _placement_guards(ctx, cell, nz):
     ctx.require(brem, 'removal in the blacklist pass', rule='C08.3')
     for node, call in brem:
         v = N.txt(call.args[0])[:-5]
-        have = set(N.show(f) for f in facts_about(
-            N.raw_only(bfacts[node]), v))
+        # conditions on the instance and on anything read through it (the
+        # server it is on): none but "blacklisted and placed"
+        derived = {v}
+        for _round in range(3):
+            for sub in K.walk_no_nested(bl.node):
+                if isinstance(sub, ast.Assign) and len(sub.targets) == 1 \
+                        and isinstance(sub.targets[0], ast.Name) and \
+                        N.mentions(sub.value) & derived:
+                    derived.add(sub.targets[0].id)
+        have = set()
+        for name in derived:
+            have |= set(N.show(f) for f in facts_about(
+                N.raw_only(bfacts[node]), name))
         ok = have == {'%s.blacklisted' % v, '%s.server' % v}
         ctx.ob('C08.3', bl, node, ok,
                'removed exactly when blacklisted and placed (facts: %s)' %
@@ -506,7 +517,94 @@ def _presence(ctx):
            construct='is_up definition')
 
 
+def state_stored(ctx, rule='C08.6'):
+    """A requested state is always taken: Node.set_state stores it on every
+    path, and the override of Server leaves without calling it only when the
+    server already is in that state.  (A state change that is dropped leaves
+    a frozen or down server up in the model - shared with C03.1.)"""
+    index = ctx.index
+    node_cls = index.get_class(K.SCHED, 'Node')
+    func = node_cls.methods.get('set_state')
+    ctx.require(func is not None, 'Node.set_state')
+    graph = ctx.cfg(func)
+    st = func.params()[1]
+    stores = [n for n in graph.nodes if any(
+        N.txt(t) == 'self._state' and N.txt(v) == st
+        for t, v, _k in K.assigns_attr(n))]
+    skip = K.find_path(graph.entry, [graph.exit],
+                       cut_node=lambda n: n in stores, follow_exc=False)
+    ctx.ob(rule, func, stores[0] if stores else None,
+           bool(stores) and skip is None,
+           'Node.set_state stores the requested state on every path',
+           path=K.describe(skip) if skip else None,
+           construct='requested state stored')
+    nz = N.Normaliser()
+    for cls in index.module(K.SCHED).classes.values():
+        if cls is node_cls or node_cls not in index.mro(cls):
+            continue
+        over = cls.methods.get('set_state')
+        if over is None:
+            continue
+        ograph = ctx.cfg(over)
+        ost = over.params()[1]
+        supers = [n for n, c in K.nodes_calling(
+            ograph, lambda c: K.is_meth(c, 'set_state') and c.args and
+            N.txt(c.args[0]) == ost)]
+
+        def already(edge, ost=ost):
+            for atom in nz.facts_of_edge(edge):
+                key = atom.key
+                if key[0] == 'is' and key[3] and ost in key[1:3] and (
+                        'self.state' in key[1:3] or
+                        'self._state' in key[1:3]):
+                    return True
+                if key[0] == 'cmp' and key[1] == '==' and \
+                        sorted(t for t, _c in key[2]) in (
+                            sorted([ost, 'self.state']),
+                            sorted([ost, 'self._state'])):
+                    return True
+            return False
+        skip = K.find_path(ograph.entry, [ograph.exit],
+                           cut_node=lambda n: n in supers,
+                           cut_edge=already, follow_exc=False)
+        ctx.ob(rule, over, supers[0] if supers else None,
+               bool(supers) and skip is None,
+               '%s.set_state hands the request to Node.set_state unless '
+               'the node already is in that state' % cls.name,
+               path=K.describe(skip) if skip else None,
+               construct='%s.set_state forwards' % cls.name)
+
+
+def _leaf_ignores_state(ctx):
+    """C08.2: a placement kept on a down or frozen server (within the
+    retention window, or frozen without the unschedule mark) is put back by
+    the restart of the master through Server.restore -> Server.put, so the
+    leaf placement must not look at the server state - new placements are
+    kept off such servers by the bucket walk and the eviction scan, which
+    have their own state tests."""
+    server = ctx.index.get_class(K.SCHED, 'Server')
+    for name in ('put', 'restore'):
+        func = server.methods.get(name)
+        ctx.require(func is not None, 'Server.%s' % name, rule='C08.2')
+        graph = ctx.cfg(func)
+        tests = [n for n in graph.nodes if n.kind == 'test' and
+                 n.ast is not None and any(
+                     isinstance(leaf, ast.Attribute) and
+                     leaf.attr in ('state', '_state')
+                     for leaf in ast.walk(K.test_expr(func, n) or n.ast))]
+        ctx.ob('C08.2', func, tests[0] if tests else None, not tests,
+               'Server.%s admits an instance whatever the state of the '
+               'server (a recorded placement on a down or frozen server is '
+               'restored through it)' % name if not tests else
+               'Server.%s tests the server state (%s): a recorded placement '
+               'on a down or frozen server can no longer be restored' % (
+                   name, N.txt(tests[0].ast)),
+               construct='Server.%s does not test the state' % name)
+
+
 def _bookkeeping(ctx):
+    state_stored(ctx)
+    _leaf_ignores_state(ctx)
     index = ctx.index
     nz = N.Normaliser()
     node_cls = index.get_class(K.SCHED, 'Node')
